@@ -105,6 +105,7 @@ class Executor:
         self.traces = []
         self.bound_exceeded_at = {}
         self.unsupported_at = {}
+        self.fork_sites = {}
         import builtins_ as B
         self.builtins = dict(B.TABLE)
         self.B = B
@@ -746,29 +747,33 @@ class Executor:
         if isinstance(a, int): return st.mem.load(a, n)
         val = self.eval_int(st, a)
         o = st.mem.find(val)
-        if o is not None and o.const and o.size <= 1024 and n == 1:
-            # in-bounds check decided by the solver, then a select over the table
+        if o is not None and o.alive and o.kind == 'global' and o.size <= 1024 and n == 1:
+            # table look-up: the in-bounds condition is decided by the solver, then an ite-chain over the table
             lo = z3.BitVecVal(o.base, 64); hi = z3.BitVecVal(o.base + o.size - n, 64)
             inb = z3.And(z3.UGE(a, lo), z3.ULE(a, hi))
             r, m = self.check(st, z3.Not(inb))
             if r == 'sat':
-                # some value leaves the table: split so that the offending value is reported by resolve()
-                st2 = st
+                # some feasible index leaves the table: that value is reported (resolve() raises), the in-bounds rest continues
                 bad = m.eval(a, True).as_long()
-                sib = st.fork(); self.add_constraint(sib, inb, st.model if self.eval_bool(st, inb) else None)
-                if sib.model is None or not self.eval_bool(sib, inb): sib.model = None
+                sib = st.fork(); sib.pc.append(inb); sib.model = None
                 self.push_state(sib)
                 self.add_constraint(st, a == z3.BitVecVal(bad, 64), m)
                 return st.mem.load(bad, n)
             if r == 'unknown': self.note_unsupported('solver-unknown-on-table')
-            off = a - lo
-            res = None
-            tbl = [st.mem.load(o.base + i, 1) for i in range(o.size)]
-            res = z3.BitVecVal(tbl[-1], 8) if isinstance(tbl[-1], int) else tbl[-1]
-            for i in range(o.size - 2, -1, -1):
-                res = z3.If(off == i, to_bv(tbl[i], 8), res)
             self.add_constraint(st, inb)
-            return res
+            nb = max(1, (o.size - 1).bit_length())
+            idx = z3.simplify(z3.Extract(nb - 1, 0, a - lo))
+            tbl = [st.mem.load(o.base + i, 1) for i in range(o.size)]
+            # balanced multiplexer tree over the index bits (cheap for the SAT back end, unlike a linear ite chain)
+            def mux(lo_i, bit):
+                if bit < 0:
+                    return to_bv(tbl[lo_i] if lo_i < len(tbl) else 0, 8)
+                hi_i = lo_i + (1 << bit)
+                if hi_i >= len(tbl): return mux(lo_i, bit - 1)
+                lo_t = mux(lo_i, bit - 1); hi_t = mux(hi_i, bit - 1)
+                if lo_t.eq(hi_t): return lo_t
+                return z3.If(z3.Extract(bit, bit, idx) == z3.BitVecVal(1, 1), hi_t, lo_t)
+            return mux(0, nb - 1)
         return st.mem.load(self.concretize(st, a, 64, 'address'), n)
 
     # ------------------------------------------------------------------ bookkeeping
@@ -866,7 +871,18 @@ class Executor:
     def start(self, entry, args=()):
         st = State()
         st.mem = self.init_mem.fork()
-        self.new_thread(st, entry, list(args), 'main')
+        th = self.new_thread(st, entry, list(args), 'main')
+        # static initialisers (llvm.global_ctors) run before the entry, on the same path
+        g = self.m.globals.get('llvm.global_ctors')
+        ctors = []
+        if g is not None and g.init is not None and g.init.kind == 'array':
+            for e in g.init.v:
+                prio = e.v[0].v; fn = e.v[1]
+                if fn.kind == 'global': ctors.append((prio, fn.v))
+        for prio, name in sorted(ctors, reverse=True):
+            if name in self.m.functions and not self.m.functions[name].is_decl:
+                self.push_frame(st, th, name, [], CTOR)
+        if not ctors: st.ghost['leak_base'] = st.mem.nextid
         return st
 
     def explore(self, entry, budget_s=None, on_pending=None):
@@ -877,8 +893,11 @@ class Executor:
             if budget_s is not None and time.time() - t0 > budget_s:
                 self.stats['timeout'] = True
                 break
-            if on_pending is not None and on_pending(self): break
-            st = self.stack.pop()
+            if on_pending is not None:
+                if on_pending(self): break
+                st = self.stack.pop(0)      # expansion phase before a parallel split: oldest first, so the frontier widens
+            else:
+                st = self.stack.pop()
             self.run(st)
         return self.stats
 
@@ -930,14 +949,16 @@ class Executor:
             instrs = fr.blk.instrs
             ip = fr.ip
             # fast inner loop over simple instructions
+            ip0 = ip
             try:
                 while True:
                     ins = instrs[ip]
                     if ins[0] != 0: break
+                    fr.ip = ip          # a fork inside the instruction must copy the right resume point
                     ins[1](st, regs)
                     ip += 1
             finally:
-                st.ninstr += ip - fr.ip + 1
+                st.ninstr += ip - ip0 + 1
                 fr.ip = ip
             if st.ninstr > max_instr:
                 self.violation(st, 'non-termination', 'path exceeds %d instructions (loop does not terminate within the budget) at %s' % (max_instr, self.where(st)))
@@ -1008,6 +1029,8 @@ class Executor:
                 self.bound_exceeded(st, 'unwind %s/%s' % (fr.cf.name, fr.blk.name))
             st.forks[key] = n
             st.nforks += 1
+            if self.verbose:
+                w = '%s/%s' % (fr.cf.name, fr.blk.name); self.fork_sites[w] = self.fork_sites.get(w, 0) + 1
             sib = st.fork()
             self.add_constraint(sib, z3.Not(c), mf); sib.decisions.append(0)
             sfr = sib.threads[sib.cur].frames[-1]
@@ -1023,14 +1046,45 @@ class Executor:
             raise PathEnd('infeasible')
 
     def switch_branch(self, st, fr, v, ins):
-        w = ins[4]
-        val = self.concretize(st, v, w, 'switch %s/%s' % (fr.cf.name, fr.blk.name))
-        self.jump(fr, ins[2].get(val, ins[3]))
+        """symbolic switch: one successor state per feasible *target* (not per value)"""
+        w = ins[4]; table = ins[2]; dflt = ins[3]
+        v = to_bv(v, w)
+        by_target = {}
+        for cv, bi in table.items(): by_target.setdefault(bi, []).append(cv)
+        conds = []
+        for bi, cvs in by_target.items():
+            if bi == dflt: continue
+            conds.append((bi, z3.Or([v == z3.BitVecVal(c, w) for c in cvs]) if len(cvs) > 1 else v == z3.BitVecVal(cvs[0], w)))
+        non_default = [c for bi, cvs in by_target.items() if bi != dflt for c in cvs]
+        conds.append((dflt, z3.And([v != z3.BitVecVal(c, w) for c in non_default]) if non_default else z3.BoolVal(True)))
+        feas = []
+        for bi, c in conds:
+            if self.eval_bool(st, c): feas.append((bi, c, st.model))
+            else:
+                r, m = self.check(st, c)
+                if r == 'sat': feas.append((bi, c, m))
+                elif r == 'unknown': self.note_unsupported('solver-unknown-on-switch')
+        if not feas: raise PathEnd('infeasible')
+        key = id(ins)
+        if len(feas) > 1:
+            n = st.forks.get(key, 0) + 1
+            if n > self.unwind: self.bound_exceeded(st, 'unwind %s/%s' % (fr.cf.name, fr.blk.name))
+            st.forks[key] = n
+        for bi, c, m in feas[1:]:
+            sib = st.fork(); self.add_constraint(sib, c, m); sib.decisions.append(('sw', bi))
+            self.jump(sib.threads[sib.cur].frames[-1], bi)
+            self.push_state(sib)
+        bi, c, m = feas[0]
+        self.add_constraint(st, c, m); st.decisions.append(('sw', bi))
+        self.jump(fr, bi)
 
     def do_ret(self, st, th, rv):
         fr = th.frames.pop()
         mem = st.mem
         for b in reversed(fr.allocas): mem.free_stack(b)
+        if fr.dest is CTOR:
+            if th.frames and th.frames[-1].dest is not CTOR: st.ghost['leak_base'] = st.mem.nextid
+            return
         if th.frames and fr.dest is not None:
             th.frames[-1].regs[fr.dest] = rv
         if th.frames:
@@ -1074,7 +1128,8 @@ class Executor:
             if t.status != 'done':
                 self.violation(st, 'thread-not-finished', 'harness returned while thread %s is %s' % (t.name, t.status))
         if self.check_leaks:
-            live = st.mem.live_heap()
+            base = st.ghost.get('leak_base', 0)
+            live = [o for o in st.mem.live_heap() if o.id >= base]
             if live:
                 self.violation(st, 'leak', 'heap object(s) still allocated at harness exit: %s' % ', '.join(o.name for o in live[:4]), fatal=False)
 
@@ -1122,6 +1177,7 @@ class Executor:
         st.cur = tid
 
 def sgn64(v): return v - (1 << 64) if v >> 63 else v
+CTOR = 'ctor-frame'
 
 def _deepcopy(v):
     if isinstance(v, list): return [_deepcopy(x) for x in v]
